@@ -175,6 +175,13 @@ def check_layout(got, layout, src, what, check_pos=True):
             sizes.append(1)
         else:
             members = e[1]
+            if len(members) == 1 and not isinstance(ax, MultiAxis):
+                # a "group" of one dimension: named by that dimension, its entries are the member's labels - a plain axis says exactly that
+                lab = src.labels[src.dims.index(members[0])]
+                if ax.name != members[0] or not same_list(py(ax.values), lab):
+                    return "{}: single-member group {} has name {!r} labels {} expected {}".format(what, members, ax.name, py(ax.values), lab)
+                sizes.append(len(lab))
+                continue
             if not isinstance(ax, MultiAxis):
                 return "{}: axis {} is not a grouped axis".format(what, ax.name)
             if [m.name for m in ax.axes] != members:
@@ -305,7 +312,7 @@ def check(case):
         # its grouped labels and what a second unflatten restores stay what they were
         d0 = sub[0]
         lab0 = ra.labels[dims.index(d0)]
-        if lab0:
+        if lab0 and got is not f:     # (a group of one dimension is that dimension: unflatten has nothing to undo and may return the array itself)
             newl = D.EXTRA[s["kinds"][dims.index(d0)]]
             e = call(lambda: got.axes[d0].__setitem__(0, newl))
             if isinstance(e, Raised):
